@@ -11,6 +11,15 @@ CHECKS = {
          'prescribed error formals. Held on the executions observed (counts per stratum in the evidence), not a proof.',
     note='Trusted: Python int arithmetic; the engine\'s own integer printer for reading results; operand evaluation order is '
          'not prescribed (any erroring operand\'s error accepted). Only the functors the statement lists.'),
+ 'C02': dict(
+    level='exploration',
+    technique='runtime monitoring: reference-model oracle (IEEE doubles via Python float/libm, Fraction, exact ints) over generated expressions',
+    text='Generated float-valued and rounding expressions (double lattice incl. subnormals, +-0, near-overflow, x.5 ties, '
+         'integers beyond 2^53 and beyond f64::MAX, rationals, prescribed-error cases, depth<=3 nests) are evaluated by the real '
+         'engine via run-time is/2 and compiled clause bodies and compared bit-exactly (1 ulp for libm/pow, counted) with the '
+         'reference; missing/wrong evaluation_errors and non-finite results are refuting events.',
+    note='Trusted: Python float = IEEE-754 binary64, math.* = the same glibc libm; <=1 ulp tolerated for libm/pow; sign of a '
+         'zero result not observable through the printer; int/int division may round once or after promotion; only listed functors.'),
 }
 
 NOT_APPLICABLE_REASON_UNBUILT = ('check designed in DESIGN.md but not built/validated yet in this session; '
